@@ -443,3 +443,112 @@ Proof.
   unfold dl_pos. rewrite H1. cbv zeta. fold w2_t. fold w2_fr. rewrite H2.
   split; vm_compute; reflexivity.
 Qed.
+
+(* ------------------------------------------------------------------ the upper side, and the gnuplot component *)
+Lemma out_value_upper : forall (d : Q) (l : Z), 0 < Q2R d ->
+  Q2R (out_value d l) <= (Q2R d + 5 / 10 ^ 15) * pow10R (IZR l).
+Proof.
+  intros d l Hd. unfold out_value.
+  assert (Hdq : (0 <= d)%Q).
+  { apply Rle_Qle. replace (Q2R 0) with 0 by (unfold Q2R; simpl; lra). lra. }
+  assert (Hb : Qle_bool 0 d = true) by (apply Qle_bool_iff; exact Hdq).
+  rewrite Hb. pose proof (f14_units_error d) as He. rewrite (Qabs_pos d Hdq) in He.
+  apply Qabs_le_R in He. apply Rabs_le_inv in He.
+  rewrite Q2R_minus, Q2R_mult, Q2R_inject_Z, Q2R_p10 in He.
+  replace (Q2R (1 # 2)) with (/ 2) in He by (unfold Q2R; simpl; lra).
+  change (IZR 14) with 14 in He. rewrite pow10R_14 in He.
+  rewrite Q2R_mult, Q2R_inject_Z, Q2R_p10, minus_IZR.
+  unfold Rminus at 1. rewrite pow10R_add.
+  assert (Hm14 : pow10R (- 14) = / 10 ^ 14).
+  { apply Rmult_eq_reg_l with (pow10R 14); [| pose proof (pow10R_pos 14); lra].
+    rewrite <- pow10R_add. replace (14 + - 14) with 0 by lra. rewrite pow10R_14.
+    unfold pow10R. rewrite Rmult_0_l, exp_0. field. }
+  change (- IZR 14) with (- 14). rewrite Hm14.
+  pose proof (pow10R_pos (IZR l)) as Hp.
+  set (N := IZR (f14_units d)) in *. set (P := pow10R (IZR l)) in *.
+  assert (Hgoal : (Q2R d + 5 / 10 ^ 15) * P = (Q2R d * 10 ^ 14 + / 2) * (P * / 10 ^ 14)) by (field).
+  rewrite Hgoal. apply Rmult_le_compat_r; [| lra].
+  assert (0 < / 10 ^ 14) by (apply Rinv_0_lt_compat; lra). nra.
+Qed.
+
+Section Upper.
+Variables (flog10 fpow10 : Q -> Q) (ulog upow : R).
+Hypothesis Hulog : 0 <= ulog.
+Hypothesis Hupow : 0 <= upow <= / 2.
+Hypothesis Hlog : forall m : Q, (1 # 2 <= m)%Q -> (m < 1)%Q -> Rabs (Q2R (flog10 m) - log10R (Q2R m)) <= ulog.
+Hypothesis Hpow : forall y : Q, (Qabs y < 1)%Q -> Rabs (Q2R (fpow10 y) - pow10R (Q2R y)) <= upow * pow10R (Q2R y).
+
+Theorem printed_radius_le : forall (m : Q) (esp : Z), (1 # 2 <= m)%Q -> (m < 1)%Q ->
+  let '(d, l) := get_dl flog10 fpow10 m esp in
+  Q2R (out_value d l) <= Q2R m * Q2R (pow2 esp) * pow10R (Derr ulog esp) * (1 + upow + 5 / 10 ^ 14).
+Proof.
+  intros m esp Hm1 Hm2. unfold get_dl.
+  assert (Hmpos : (0 < m)%Q) by (eapply Qlt_le_trans; [| exact Hm1]; reflexivity).
+  destruct (Qeq_bool m 0) eqn:Hz.
+  { apply Qeq_bool_iff in Hz. rewrite Hz in Hmpos. discriminate Hmpos. }
+  assert (Hb : Qle_bool 0 m = true) by (apply Qle_bool_iff, Qlt_le_weak; exact Hmpos).
+  rewrite Hb. pose proof (dl_pos_spec flog10 fpow10 ulog upow Hulog Hlog Hpow m esp Hm1 Hm2) as H.
+  destruct (dl_pos flog10 fpow10 m esp) as [d l].
+  destruct H as [E [dp [fr [HE [Hdp [Hfr [Hd Hsum]]]]]]].
+  assert (Hmr : 0 < Q2R m).
+  { apply Qlt_Rlt in Hmpos. replace (Q2R 0) with 0 in Hmpos by (unfold Q2R; simpl; lra). exact Hmpos. }
+  apply Rabs_le_inv in Hdp. apply Rabs_le_inv in HE.
+  assert (Hfr' : -1 < fr < 1) by (unfold Rabs in Hfr; destruct (Rcase_abs fr); lra).
+  pose proof (pow10R_pos fr) as HPf.
+  assert (Hdpos : 0 < Q2R d) by (rewrite Hd; nra).
+  eapply Rle_trans; [apply (out_value_upper d l Hdpos) |].
+  set (T := log10R (Q2R m) + IZR esp * log10R 2) in *.
+  assert (Hst : Q2R m * Q2R (pow2 esp) = pow10R T).
+  { unfold T. rewrite pow10R_add, pow10R_log10R by exact Hmr. rewrite Q2R_pow2. reflexivity. }
+  rewrite Hst.
+  assert (Hl : pow10R (IZR l) = pow10R T * pow10R E * pow10R (- fr)).
+  { rewrite <- !pow10R_add. f_equal. lra. }
+  rewrite Hl, Hd.
+  pose proof (pow10R_pos T) as HT. pose proof (pow10R_pos E) as HEp. pose proof (pow10R_pos (- fr)) as Hnf.
+  assert (Hinv : pow10R fr * pow10R (- fr) = 1).
+  { rewrite <- pow10R_add. replace (fr + - fr) with 0 by lra. unfold pow10R. rewrite Rmult_0_l. apply exp_0. }
+  assert (Hnf10 : pow10R (- fr) <= 10) by (rewrite <- pow10R_1; apply pow10R_mono; lra).
+  assert (HE1 : pow10R E <= pow10R (Derr ulog esp)) by (apply pow10R_mono; lra).
+  replace ((pow10R fr * (1 + dp) + 5 / 10 ^ 15) * (pow10R T * pow10R E * pow10R (- fr)))
+    with (pow10R T * (pow10R E * ((pow10R fr * pow10R (- fr)) * (1 + dp) + 5 / 10 ^ 15 * pow10R (- fr)))) by ring.
+  rewrite Hinv. rewrite !Rmult_assoc.
+  apply Rmult_le_compat_l; [lra |].
+  apply Rmult_le_compat; nra.
+Qed.
+
+(* mps_outfloat, gnuplot formats, a positive stored component x: mpf_get_rdpe keeps x (1 - 2^-52) < ro <= x and the printed
+   15 digits are within the two bounds of ro *)
+Theorem gnuplot_component_bounds : forall (x : Q), (0 < x)%Q ->
+  let '(m, esp) := mpf_get_rdpe x in
+  let '(d, l) := get_dl flog10 fpow10 m esp in
+  (0 <= 1 - ln 10 * Derr ulog esp - upow - 5 / 10 ^ 14 ->
+   Q2R x * (1 - / 2 ^ 52) * (1 - ln 10 * Derr ulog esp - upow - 5 / 10 ^ 14) <= Q2R (out_value d l)) /\
+  Q2R (out_value d l) <= Q2R x * pow10R (Derr ulog esp) * (1 + upow + 5 / 10 ^ 14).
+Proof.
+  intros x Hx.
+  assert (Hnz : ~ (x == 0)%Q) by (intro Hc; rewrite Hc in Hx; discriminate Hx).
+  pose proof (mpf_get_rdpe_spec x Hnz) as Hs.
+  destruct (mpf_get_rdpe x) as [m esp].
+  destruct Hs as [Hm1 [Hm2 [Hv1 [Hv2 [Hsg _]]]]].
+  assert (Hm0 : (0 <= m)%Q) by (apply Hsg, Qlt_le_weak; exact Hx).
+  rewrite (Qabs_pos m Hm0) in Hm1, Hm2.
+  assert (Hp : (0 < pow2 esp)%Q) by apply pow2_pos.
+  assert (Hmp : (0 <= m * pow2 esp)%Q) by (apply Qmult_le_0_compat; [exact Hm0 | apply Qlt_le_weak; exact Hp]).
+  rewrite (Qabs_pos _ Hmp), (Qabs_pos x (Qlt_le_weak _ _ Hx)) in Hv1, Hv2.
+  apply Qle_Rle in Hv1. apply Qlt_Rlt in Hv2.
+  rewrite Q2R_mult in Hv1. rewrite Q2R_minus, !Q2R_mult in Hv2.
+  replace (Q2R (pow2 (- 52))) with (/ 2 ^ 52) in Hv2 by (unfold pow2, Q2R; simpl; lra).
+  pose proof (printed_radius_ge flog10 fpow10 ulog upow Hulog Hupow Hlog Hpow m esp Hm1 Hm2) as Hlo.
+  pose proof (printed_radius_le m esp Hm1 Hm2) as Hhi.
+  destruct (get_dl flog10 fpow10 m esp) as [d l].
+  assert (Hxr : 0 < Q2R x) by (apply Qlt_Rlt in Hx; replace (Q2R 0) with 0 in Hx by (unfold Q2R; simpl; lra); exact Hx).
+  pose proof (stored_pos m esp Hm1) as Hst.
+  set (S := Q2R m * Q2R (pow2 esp)) in *.
+  pose proof (pow10R_pos (Derr ulog esp)) as HD.
+  split.
+  - intro Hc. eapply Rle_trans; [| exact Hlo]. apply Rmult_le_compat_r; [exact Hc | lra].
+  - eapply Rle_trans; [exact Hhi |].
+    assert (0 <= 1 + upow + 5 / 10 ^ 14) by lra.
+    apply Rmult_le_compat_r; [lra |]. apply Rmult_le_compat_r; lra.
+Qed.
+End Upper.
